@@ -5,6 +5,7 @@ package main
 
 import (
 	"fmt"
+	"go/constant"
 	"go/token"
 	"go/types"
 	"strings"
@@ -388,4 +389,401 @@ func c17SortBeforeGeomean(c *Ctx, p *Prog) {
 	}
 	c.Floor(R, "Sort calls in Collection.Tables", len(sorts), 1)
 	c.Floor(R, "addGeomean calls in Collection.Tables", len(geos), 1)
+}
+
+// backSlice walks the operands of v backwards (through arithmetic, loads and their addresses, calls and their
+// arguments, phis, extracts) and calls visit on every value met; visit returning false stops the walk below that value.
+func backSlice(v ssa.Value, visit func(ssa.Value) bool) {
+	seen := map[ssa.Value]bool{}
+	var walk func(v ssa.Value, d int)
+	walk = func(v ssa.Value, d int) {
+		if v == nil || seen[v] || d > 40 {
+			return
+		}
+		seen[v] = true
+		if !visit(v) {
+			return
+		}
+		in, ok := v.(ssa.Instruction)
+		if !ok {
+			return
+		}
+		for _, op := range in.Operands(nil) {
+			if *op != nil {
+				walk(*op, d+1)
+			}
+		}
+	}
+	walk(v, 0)
+}
+
+// reaches: some value in the backward slice of v satisfies pred.
+func reaches(v ssa.Value, pred func(ssa.Value) bool) bool {
+	found := false
+	backSlice(v, func(x ssa.Value) bool {
+		if pred(x) {
+			found = true
+		}
+		return !found
+	})
+	return found
+}
+
+// c02ValueIsTheRest (C02/R16): the value of a `key: value` line is everything after the separator: what
+// parseKeyValueLine returns as the value is a suffix of the line (slices without an upper bound, at most a
+// left-trimming library call), so trailing blanks belong to the value.
+func c02ValueIsTheRest(c *Ctx, p *Prog) {
+	const R = "C02/R16"
+	fn := p.Fn("benchfmt", "parseKeyValueLine")
+	if fn == nil || len(fn.Params) != 1 || fn.Signature.Results().Len() != 3 {
+		c.Undecided(R, "anchor:parseKeyValueLine", "", "not found or signature changed")
+		return
+	}
+	n := 0
+	bad := ""
+	var walk func(v ssa.Value, seen map[ssa.Value]bool)
+	walk = func(v ssa.Value, seen map[ssa.Value]bool) {
+		if seen[v] {
+			return
+		}
+		seen[v] = true
+		switch x := v.(type) {
+		case *ssa.Phi:
+			for _, e := range x.Edges {
+				walk(e, seen)
+			}
+		case *ssa.Slice:
+			if x.High != nil || x.Max != nil {
+				bad = "an upper bound at " + p.pos(x.Pos())
+			}
+			walk(x.X, seen)
+		case *ssa.Parameter, *ssa.Const:
+		case *ssa.Call:
+			co := calleeObj(&x.Call)
+			if co != nil && co.Pkg() != nil && co.Pkg().Path() == "bytes" && (co.Name() == "TrimLeft" || co.Name() == "TrimLeftFunc" || co.Name() == "TrimPrefix") {
+				walk(x.Call.Args[0], seen)
+				return
+			}
+			name := "a call"
+			if co != nil {
+				name = co.FullName()
+			}
+			bad = name + " at " + p.pos(x.Pos())
+		case *ssa.Extract:
+			walk(x.Tuple, seen)
+		default:
+			bad = fmt.Sprintf("%T at %s", v, p.pos(v.Pos()))
+		}
+	}
+	for _, b := range fn.Blocks {
+		if ret, ok := b.Instrs[len(b.Instrs)-1].(*ssa.Return); ok {
+			n++
+			walk(retVal(ret, 1), map[ssa.Value]bool{})
+		}
+	}
+	c.Check(bad == "", R, "parseKeyValueLine:value is the rest of the line", p.pos(fn.Pos()), "the value is a suffix of the line",
+		"the value parseKeyValueLine returns is not simply the rest of the line after the separator ("+bad+"): the format gives the value as everything up to the end of the line, so a value ending in blanks or tabs reads back without them")
+	c.Floor(R, "returns of parseKeyValueLine", n, 1)
+}
+
+// c05PlainKey (C05/R7): a plain key is the configured value whenever the key is configured: extractConfig returns nil
+// only where the lookup said "absent". c05NameIsBase (C05/R8): .name and .fullname are Name.Base() and Name.Full() as
+// they come.
+func c05PlainKey(c *Ctx, p *Prog) {
+	const R = "C05/R7"
+	fn := p.Fn("benchproc", "extractConfig")
+	if fn == nil {
+		c.Undecided(R, "anchor:extractConfig", "", "not found")
+		return
+	}
+	n := 0
+	for _, b := range fn.Blocks {
+		ret, ok := b.Instrs[len(b.Instrs)-1].(*ssa.Return)
+		if !ok {
+			continue
+		}
+		v := retVal(ret, 0)
+		k, isConst := v.(*ssa.Const)
+		if !isConst || !k.IsNil() {
+			continue
+		}
+		n++
+		absent := false
+		for _, f := range factsAt(b) {
+			if ex, ok := f.Cond.(*ssa.Extract); ok && ex.Index == 1 && !f.True {
+				if call, ok := ex.Tuple.(*ssa.Call); ok && objIs(calleeObj(&call.Call), rp("benchfmt"), "Result", "ConfigIndex") {
+					absent = true
+				}
+			}
+		}
+		c.Check(absent, R, fmt.Sprintf("extractConfig:empty#%d only when absent", n), p.pos(ret.Pos()), "nil is returned where ConfigIndex reported the key absent",
+			"extractConfig returns nil on a path where the key was found: a configured key (for instance one set by the tool, File=false) then projects and filters as the empty string")
+	}
+	c.Floor(R, "nil returns of extractConfig", n, 1)
+}
+
+func c05NameIsBase(c *Ctx, p *Prog) {
+	const R = "C05/R8"
+	for _, pr := range [][2]string{{"extractName", "Base"}, {"extractFull", "Full"}} {
+		fn := p.Fn("benchproc", pr[0])
+		if fn == nil {
+			c.Undecided(R, "anchor:"+pr[0], "", "not found")
+			continue
+		}
+		ok, n := true, 0
+		for _, b := range fn.Blocks {
+			if ret, isRet := b.Instrs[len(b.Instrs)-1].(*ssa.Return); isRet {
+				n++
+				call, isCall := retVal(ret, 0).(*ssa.Call)
+				if !isCall || !objIs(calleeObj(&call.Call), rp("benchfmt"), "Name", pr[1]) {
+					ok = false
+				}
+			}
+		}
+		c.Check(ok && n > 0, R, pr[0]+":verbatim", p.pos(fn.Pos()), "returns Name."+pr[1]+"() as it comes",
+			pr[0]+" returns something other than the result of Name."+pr[1]+"(): the extracted name is then not the "+strings.ToLower(pr[1])+" name for some names (a base that itself begins with a trimmed prefix, say)")
+	}
+}
+
+// c06OperatorsVerbatim (C06/R19): AND and OR are the words AND and OR: where the bare-word scanner compares with these
+// two constants, the other operand is the scanned text itself, not a function of it.
+func c06OperatorsVerbatim(c *Ctx, p *Prog, R string) {
+	n := 0
+	for _, fn := range p.Funcs("benchproc/internal/parse") {
+		eachInstr(fn, func(_ *ssa.BasicBlock, in ssa.Instruction) {
+			bo, ok := in.(*ssa.BinOp)
+			if !ok || bo.Op != token.EQL && bo.Op != token.NEQ {
+				return
+			}
+			for _, pr := range [][2]ssa.Value{{bo.X, bo.Y}, {bo.Y, bo.X}} {
+				s, ok := constString(pr[0])
+				if !ok || s != "AND" && s != "OR" {
+					continue
+				}
+				n++
+				_, isCall := pr[1].(*ssa.Call)
+				c.Check(!isCall, R, fmt.Sprintf("%s:operator %s", fnName(fn), s), p.pos(bo.Pos()), "compared with the scanned word itself",
+					"the word compared with "+s+" is the result of a call, not the scanned text: words that merely map to "+s+" (and, Or, …) become operators, and a filter such as `/op:and` or `.name:Or` stops parsing")
+			}
+		})
+	}
+	c.Floor(R, "comparisons with AND/OR", n, 2)
+}
+
+// c07ErrorPositions (C07/R18): an error's offset lies in the text: the position handed to errorTracker.error is never a
+// constant string (the offset is len(original) - len(position argument)).
+func c07ErrorPositions(c *Ctx, p *Prog) {
+	const R = "C07/R18"
+	n := 0
+	for _, fn := range p.Funcs("benchproc/internal/parse") {
+		eachInstr(fn, func(_ *ssa.BasicBlock, in ssa.Instruction) {
+			cc, ok := callIs(in, rp("benchproc/internal/parse"), "errorTracker", "error")
+			if !ok {
+				return
+			}
+			args := callArgs(cc)
+			if len(args) != 3 {
+				return
+			}
+			n++
+			_, posConst := args[1].(*ssa.Const)
+			c.Check(!posConst, R, fmt.Sprintf("%s:error#%d", fnName(fn), n), p.pos(in.Pos()), "the position argument is a piece of the text",
+				"errorTracker.error is given a constant string where the rest of the text belongs: the offset is computed as len(text) minus its length, so it is wrong (negative for short texts) and the message is lost")
+		})
+	}
+	c.Floor(R, "calls of errorTracker.error", n, 1)
+}
+
+// c08EqualRowCompares (C08/R17): two rows are one key only if every value agrees: keyNode.equalRow compares the stored
+// values with the row's, element by element, in a loop (or with slices.Equal).
+func c08EqualRowCompares(c *Ctx, p *Prog) {
+	const R = "C08/R17"
+	fn := p.Method("benchproc", "keyNode", "equalRow")
+	valsF := p.Field("benchproc", "keyNode", "vals")
+	if fn == nil || valsF == nil || len(fn.Params) != 2 {
+		c.Undecided(R, "anchor:keyNode.equalRow", "", "not found")
+		return
+	}
+	row := fn.Params[1]
+	ok := false
+	for _, lp := range naturalLoops(fn) {
+		for b := range lp.Blocks {
+			for _, in := range b.Instrs {
+				bo, isBo := in.(*ssa.BinOp)
+				if !isBo || bo.Op != token.EQL && bo.Op != token.NEQ || !isString(bo.X.Type()) {
+					continue
+				}
+				fromRow := func(v ssa.Value) bool { return reaches(v, func(x ssa.Value) bool { return x == ssa.Value(row) }) }
+				fromVals := func(v ssa.Value) bool {
+					return reaches(v, func(x ssa.Value) bool { f, _ := fieldOfAddr(x); return f == valsF })
+				}
+				if fromRow(bo.X) && fromVals(bo.Y) || fromRow(bo.Y) && fromVals(bo.X) {
+					ok = true
+				}
+			}
+		}
+	}
+	for _, ci := range callsIn(fn, "slices", "", "Equal") {
+		_ = ci
+		ok = true
+	}
+	c.Check(ok, R, "equalRow:compares every value", p.pos(fn.Pos()), "the stored values are compared with the row's element by element",
+		"keyNode.equalRow no longer compares the values themselves: the row hash has no separators and is only 64 bits, so tuples such as (net, 386) and (net3, 86) that share a hash and a length become one key")
+}
+
+// c09SortKeysAllFields (C09/R12): SortKeys compares by every flattened field: what its comparison closure passes to
+// the shared less function as the field list is FlattenedFields() as returned, assigned once.
+func c09SortKeysAllFields(c *Ctx, p *Prog) {
+	const R = "C09/R12"
+	fn := p.Fn("benchproc", "SortKeys")
+	if fn == nil {
+		c.Undecided(R, "anchor:SortKeys", "", "not found")
+		return
+	}
+	n := 0
+	for _, an := range allAnon(fn) {
+		eachInstr(an, func(_ *ssa.BasicBlock, in ssa.Instruction) {
+			call, ok := in.(*ssa.Call)
+			if !ok {
+				return
+			}
+			h := call.Call.StaticCallee()
+			if h == nil || h.Pkg != fn.Pkg || len(call.Call.Args) != 3 || h.Signature.Recv() != nil {
+				return
+			}
+			if _, isSl := call.Call.Args[0].Type().Underlying().(*types.Slice); !isSl {
+				return
+			}
+			n++
+			arg := call.Call.Args[0]
+			good := false
+			isFlat := func(v ssa.Value) bool {
+				cl, ok := v.(*ssa.Call)
+				return ok && objIs(calleeObj(&cl.Call), rp("benchproc"), "Projection", "FlattenedFields")
+			}
+			if u, ok := arg.(*ssa.UnOp); ok && u.Op == token.MUL {
+				if fv, ok := u.X.(*ssa.FreeVar); ok && an.Parent() != nil {
+					// the captured variable: its binding in the enclosing function
+					for _, instr := range allInstrs(an.Parent()) {
+						mc, ok := instr.(*ssa.MakeClosure)
+						if !ok || mc.Fn != ssa.Value(an) {
+							continue
+						}
+						for i, f := range an.FreeVars {
+							if f == fv {
+								if al, ok := mc.Bindings[i].(*ssa.Alloc); ok {
+									sts := storesInto(al)
+									good = len(sts) == 1 && isFlat(sts[0].Val)
+								}
+							}
+						}
+					}
+				}
+			} else if isFlat(arg) {
+				good = true
+			}
+			c.Check(good, R, "SortKeys:field list", p.pos(call.Pos()), "the comparison walks FlattenedFields() as returned",
+				"the field list SortKeys compares by is not simply the projection's flattened fields (it is reassigned or derived): keys are then ordered by fewer fields than Key.Less uses, and the result depends on the arrangement the slice arrived in")
+		})
+	}
+	c.Floor(R, "comparison calls in SortKeys", n, 1)
+}
+
+func allInstrs(fn *ssa.Function) []ssa.Instruction {
+	var out []ssa.Instruction
+	eachInstr(fn, func(_ *ssa.BasicBlock, in ssa.Instruction) { out = append(out, in) })
+	return out
+}
+
+// c10EmptySafe (C10/R10): the common scale of no values is defined: CommonScale does not index or re-slice its slice
+// parameter at a constant position unless a length test dominates.
+func c10EmptySafe(c *Ctx, p *Prog) {
+	const R = "C10/R10"
+	fn := p.Fn("benchunit", "CommonScale")
+	if fn == nil || len(fn.Params) == 0 {
+		c.Undecided(R, "anchor:CommonScale", "", "not found")
+		return
+	}
+	vals := fn.Params[0]
+	lenGuarded := func(b *ssa.BasicBlock) bool {
+		for _, f := range factsAt(b) {
+			if reaches(f.Cond, func(x ssa.Value) bool {
+				cl, ok := x.(*ssa.Call)
+				if !ok {
+					return false
+				}
+				bi, ok := cl.Call.Value.(*ssa.Builtin)
+				return ok && bi.Name() == "len" && cl.Call.Args[0] == ssa.Value(vals)
+			}) {
+				return true
+			}
+		}
+		return false
+	}
+	bad := ""
+	eachInstr(fn, func(b *ssa.BasicBlock, in ssa.Instruction) {
+		switch x := in.(type) {
+		case *ssa.IndexAddr:
+			if x.X == ssa.Value(vals) {
+				if _, isK := constInt(x.Index); isK && !lenGuarded(b) {
+					bad = p.pos(x.Pos())
+				}
+			}
+		case *ssa.Slice:
+			if x.X == ssa.Value(vals) && x.Low != nil {
+				if k, isK := constInt(x.Low); isK && k > 0 && !lenGuarded(b) {
+					bad = p.pos(x.Pos())
+				}
+			}
+		}
+	})
+	c.Check(bad == "", R, "CommonScale:no values", p.pos(fn.Pos()), "the slice is only walked, never indexed at a fixed position without a length test",
+		"CommonScale indexes or re-slices its values at a constant position (at "+bad+") with no length test before it: the common scale of an empty set — documented as the unscaled default — panics instead")
+}
+
+// c12ZeroVarianceExact (C12/R10): a sample is refused for having no variance only when its variance is exactly zero:
+// every float comparison guarding a return of ErrZeroVariance is an (in)equality with the constant 0. A tolerance is an
+// absolute quantity in squared units of the measurements: valid samples of small magnitude would be refused.
+func c12ZeroVarianceExact(c *Ctx, p *Prog, R string) {
+	n := 0
+	for _, fn := range p.Funcs("internal/stats") {
+		for _, b := range fn.Blocks {
+			ret, ok := b.Instrs[len(b.Instrs)-1].(*ssa.Return)
+			if !ok || len(ret.Results) == 0 {
+				continue
+			}
+			g, ok := loadAddr(retLast(ret)).(*ssa.Global)
+			if !ok || g.Name() != "ErrZeroVariance" {
+				continue
+			}
+			n++
+			bad := ""
+			for _, f := range factsAt(b) {
+				bo, ok := f.Cond.(*ssa.BinOp)
+				if !ok || !isFloat(bo.X.Type()) {
+					continue
+				}
+				k, isK := bo.Y.(*ssa.Const)
+				if !isK {
+					k, isK = bo.X.(*ssa.Const)
+				}
+				if !isK {
+					continue
+				}
+				if !(k.Value != nil && constant.Sign(k.Value) == 0) && reaches(f.Cond, func(x ssa.Value) bool {
+					cl, ok := x.(*ssa.Call)
+					if !ok {
+						return false
+					}
+					co := calleeObj(&cl.Call)
+					return co != nil && (co.Name() == "Variance" || co.Name() == "StdDev" || co.Name() == "variance")
+				}) {
+					bad = fmt.Sprintf("%s %s %s at %s", valStr(bo.X), bo.Op, k.Value, p.pos(bo.Pos()))
+				}
+			}
+			c.Check(bad == "", R, fmt.Sprintf("%s:zero-variance#%d is exact", fnName(fn), n), p.pos(ret.Pos()), "refused only for a variance of exactly 0",
+				"the zero-variance refusal compares a variance with a non-zero constant ("+bad+"): the threshold is an absolute quantity in squared units, so valid samples of small magnitude (timings in seconds with nanosecond spread) get ErrZeroVariance instead of T, DoF and P, and the test is no longer invariant under a change of unit")
+		}
+	}
+	c.Floor(R, "returns of ErrZeroVariance", n, 3)
 }
